@@ -41,4 +41,143 @@ theorem C12_to_regex_full {σ : Type} [DecidableEq σ] (natName : Nat → σ)
             ∀ w, w ∈ L ↔ n.accepts w = true) :=
   C12_to_regex_full_partial AV.Rx.GnfaGlue.compile C12_parser_full_holds natName hinj
 
+/-! ## The literal-alphabet hypothesis is necessary (open finding
+`C12:alphabet-has-reserved-regex-character`)
+
+`hlit : ∀ a ∈ syms, IsLit a` excludes source alphabets that contain a reserved character of the
+regex syntax or a white-space character.  Such automata are valid DFAs / NFAs with a non-empty
+language — inside the domain of the English property — and on them the code *violates* the
+property: `to_regex` embeds the symbols verbatim (the output syntax has no escaping), so `.` is
+read back as the wildcard (another language), a blank is skipped, `{` `}` do not parse, and for
+`* | ( ) ? & + ^` and other white space already `from_dfa` / `from_nfa` raise.  The theorem below
+proves the failure on the model for the smallest wrong-language case. -/
+
+/-- The property for DFAs *without* the literal-alphabet hypothesis. -/
+def C12_to_regex_any_alphabet (σ : Type) [DecidableEq σ] (natName : Nat → σ) : Prop :=
+  ∀ (d : DFA σ Char), d.validate = .ok () → (∀ kv ∈ d.trans, (akeys kv.2).Nodup) →
+    (∃ w, d.accepts w = true) →
+    ∃ g, fromDFA simpleRxValid natName d = .ok g ∧
+      ∀ (ord : Nat → List σ → List σ), (∀ k l x, x ∈ ord k l ↔ x ∈ l) →
+        ∃ s L, toRegex g ord = .ok (some s) ∧ AV.Rx.GnfaGlue.compile s = some L ∧
+          ∀ w, w ∈ L ↔ d.accepts w = true
+
+/-- `0 -'.'→ 1 -'a'→ 1`, final state 1, over `{'.', 'a'}`: the language `{"."}·{"a"}*`. -/
+def exDotDFA : AV.DFA Nat Char :=
+  { states := [0, 1], syms := ['.', 'a'], trans := [(0, [('.', 1)]), (1, [('a', 1)])],
+    init := 0, finals := [1], allowPartial := true }
+
+/-- What `from_dfa` builds from it (new initial state 2, new final state 3). -/
+def exDotG : GNFA Nat Str :=
+  { states := [0, 1, 2, 3], syms := ['.', 'a'],
+    trans := [(0, [(1, some ['.']), (0, none), (3, none)]),
+              (1, [(1, some ['a']), (3, some []), (0, none)]),
+              (2, [(0, some []), (1, none), (3, none)])],
+    init := 2, final := 3 }
+
+theorem exDotG_shape : Shape [0, 1, 2, 3] 2 3 exDotG.trans := by
+  refine ⟨by decide, by decide, by decide, by decide, ?_, ?_⟩
+  · intro p
+    rcases p with _ | _ | _ | _ | p <;> simp [exDotG, alookup]
+  · intro p r
+    rcases p with _ | _ | _ | _ | p <;> rcases r with _ | _ | _ | _ | r <;>
+      simp [exDotG, alookup, get2]
+
+/-- Whatever the rip order, `to_regex` returns `.a*` for it. -/
+theorem exDotG_toRegex (ord : Nat → List Nat → List Nat) (hord : ∀ k l x, x ∈ ord k l ↔ x ∈ l) :
+    toRegex exDotG ord = .ok (some ['.', 'a', '*']) := by
+  have hS := exDotG_shape
+  obtain ⟨q, hfind, hqS, hqi, hqf⟩ := findMin_spec hS (by decide) (ord 0) (hord 0)
+  have hq : q = 0 ∨ q = 1 := by
+    simp only [List.mem_cons, List.not_mem_nil, or_false] at hqS
+    omega
+  have hunf : toRegex exDotG ord =
+      toRegexLoop ripLabel 2 3 ord 2 0 [0, 1, 2, 3] exDotG.trans [] >>= fun r => .ok r.2 := rfl
+  rw [hunf]
+  rcases hq with rfl | rfl
+  · obtain ⟨tr', hstep, hS', -⟩ := ripStep_spec ripLabel hS hqS hqi hqf
+    have hstep0 : ripStep ripLabel 2 3 [0, 1, 2, 3] exDotG.trans 0 =
+        .ok ([1, 2, 3], [(1, [(1, some ['a']), (3, some [])]), (2, [(1, some ['.']), (3, none)])]) := by
+      rfl
+    rw [hstep0] at hstep
+    obtain ⟨-, rfl⟩ := Prod.mk.inj (Except.ok.inj hstep)
+    have hf : (List.filter (fun x => decide (x ≠ 0)) [0, 1, 2, 3]) = [1, 2, 3] := by decide
+    rw [hf] at hS'
+    obtain ⟨q, hfind', hqS', hqi', hqf'⟩ := findMin_spec hS' (by decide) (ord 1) (hord 1)
+    have hq : q = 1 := by
+      simp only [List.mem_cons, List.not_mem_nil, or_false] at hqS'
+      omega
+    subst hq
+    simp only [toRegexLoop, bind, Except.bind, hfind, hstep0, hfind']
+    rfl
+  · obtain ⟨tr', hstep, hS', -⟩ := ripStep_spec ripLabel hS hqS hqi hqf
+    have hstep0 : ripStep ripLabel 2 3 [0, 1, 2, 3] exDotG.trans 1 =
+        .ok ([0, 2, 3], [(0, [(0, none), (3, some ['.', 'a', '*'])]), (2, [(0, some []), (3, none)])]) := by
+      rfl
+    rw [hstep0] at hstep
+    obtain ⟨-, rfl⟩ := Prod.mk.inj (Except.ok.inj hstep)
+    have hf : (List.filter (fun x => decide (x ≠ 1)) [0, 1, 2, 3]) = [0, 2, 3] := by decide
+    rw [hf] at hS'
+    obtain ⟨q, hfind', hqS', hqi', hqf'⟩ := findMin_spec hS' (by decide) (ord 1) (hord 1)
+    have hq : q = 0 := by
+      simp only [List.mem_cons, List.not_mem_nil, or_false] at hqS'
+      omega
+    subst hq
+    simp only [toRegexLoop, bind, Except.bind, hfind, hstep0, hfind']
+    rfl
+
+/-- The parser model compiles `.a*` (default alphabet `{a}`: the `.` is the wildcard) to an NFA
+that accepts `a`. -/
+theorem exDot_compile : ∃ N, AV.Rx.fromRegex ['.', 'a', '*'] none = .ok N ∧
+    N.accepts ['a'] = true := by
+  have h : (AV.Rx.fromRegex ['.', 'a', '*'] none).toOption.map (fun N => N.accepts ['a']) =
+      some true := by decide
+  cases hN : AV.Rx.fromRegex ['.', 'a', '*'] none with
+  | error e => rw [hN] at h; cases h
+  | ok N =>
+    rw [hN] at h
+    exact ⟨N, rfl, by simpa [Except.toOption] using h⟩
+
+/-- **C12_reserved_alphabet_fails** — the witness: `exDotDFA` is a valid DFA with a non-empty
+language (it accepts `.`) whose alphabet contains the reserved character `.`; `from_dfa`
+succeeds, and for EVERY rip order `to_regex` returns the string `.a*`, which the library's
+parser model compiles (default alphabet) to a language **different** from the source's — the
+compiled NFA accepts `a`, the DFA does not — and which `NFA.from_regex(s, input_symbols=Σ)` with
+the source alphabet refuses with `InvalidSymbolError`. -/
+theorem C12_reserved_alphabet_fails :
+    exDotDFA.validate = .ok () ∧ (∀ kv ∈ exDotDFA.trans, (akeys kv.2).Nodup) ∧
+    (∃ w, exDotDFA.accepts w = true) ∧ ¬ (∀ a ∈ exDotDFA.syms, IsLit a) ∧
+    ∃ g, fromDFA simpleRxValid id exDotDFA = .ok g ∧
+      ∀ (ord : Nat → List Nat → List Nat), (∀ k l x, x ∈ ord k l ↔ x ∈ l) →
+        ∃ s L, toRegex g ord = .ok (some s) ∧ AV.Rx.GnfaGlue.compile s = some L ∧
+          ¬ (∀ w, w ∈ L ↔ exDotDFA.accepts w = true) ∧
+          AV.Rx.fromRegex s (some exDotDFA.syms) = .error (.lib .invalidSymbolError) := by
+  refine ⟨by decide, by decide, ⟨['.'], by decide⟩, by decide, exDotG, by decide, ?_⟩
+  intro ord hord
+  obtain ⟨N, hN, hacc⟩ := exDot_compile
+  refine ⟨['.', 'a', '*'], {w | N.accepts w = true}, exDotG_toRegex ord hord, ?_, ?_, rfl⟩
+  · unfold AV.Rx.GnfaGlue.compile
+    rw [hN]
+  · intro h
+    have h1 : exDotDFA.accepts ['a'] = true := (h ['a']).mp hacc
+    have h2 : exDotDFA.accepts ['a'] = false := by decide
+    rw [h2] at h1
+    cases h1
+
+/-- The unrestricted claim fails: the hypothesis `hlit` of `C12_dfa` / `C12_to_regex_full`
+cannot be dropped (`IsLit` is exactly the boundary the output syntax imposes: a character that
+is not `IsLit` is reserved or white space, and is then not read back as itself). -/
+theorem C12_to_regex_any_alphabet_fails : ¬ C12_to_regex_any_alphabet Nat id := by
+  intro h
+  obtain ⟨hv, hk, hne, -, g, hg, hall⟩ := C12_reserved_alphabet_fails
+  obtain ⟨g', hg', hall'⟩ := h exDotDFA hv hk hne
+  rw [hg] at hg'
+  cases hg'
+  obtain ⟨s, L, hs, hc, hneq, -⟩ := hall (fun _ l => l) (fun _ _ _ => Iff.rfl)
+  obtain ⟨s', L', hs', hc', heq⟩ := hall' (fun _ l => l) (fun _ _ _ => Iff.rfl)
+  rw [hs] at hs'
+  cases hs'
+  rw [hc] at hc'
+  cases hc'
+  exact hneq heq
+
 end AV.Props.C12
